@@ -110,6 +110,27 @@ fn gcd_pairs(sh: Shape, signed: bool) -> BoxedStrategy<(Pat, Pat)> {
             _ => (a.clone(), wrap(Z::from_le_unsigned(&a.0).shl(3))),
         }),
         1 => (0u32..sh.bits(), 0u32..sh.bits()).prop_map(move |(i, j)| (wrap(Z::pow2(i as u64)), wrap(Z::pow2(j as u64)))),
+        // the extreme values against the units and small values (MIN has no representable negation)
+        1 => (0u8..5, 0u8..7, any::<bool>()).prop_map(move |(x, y, swap)| {
+            let ext = |k: u8| match k {
+                0 => if signed { Z::pow2(maxbits).neg() } else { Z::pow2(maxbits).add_i(-1) },
+                1 => if signed { Z::pow2(maxbits).neg().add_i(1) } else { Z::pow2(maxbits - 1) },
+                2 => Z::pow2(maxbits).add_i(-1),
+                3 => if signed { Z::from_i64(-1) } else { Z::one() },
+                _ => Z::pow2(maxbits - 1),
+            };
+            let small = |k: u8| match k {
+                0 => Z::from_i64(if signed { -1 } else { 1 }),
+                1 => Z::one(),
+                2 => Z::from_i64(if signed { -2 } else { 2 }),
+                3 => Z::from_i64(3),
+                4 => Z::zero(),
+                5 => Z::pow2(maxbits - 1),
+                _ => Z::pow2(maxbits).add_i(-1),
+            };
+            let (a, b) = (wrap(ext(x)), wrap(small(y)));
+            if swap { (b, a) } else { (a, b) }
+        }),
     ]
     .boxed()
 }
@@ -345,7 +366,7 @@ fn main() {
     runner::main(
         Property {
             id: "C18",
-            rule: "All methods are called through the traits (UFCS). Division pairs: structured patterns, small divisors of both signs, divisors of reduced magnitude; gcd/lcm: (g*x, g*y) with small cofactors and shared powers of two, equal operands, zero, powers of two; roots: x in {r^n, r^n +- 1, r^n + delta strictly between consecutive powers (r = 2^k, 2^k * small or a structured pattern of any size; delta = gap-1, gap/2, uniform, small), top of the range, MIN / MIN+1 / -1 / MAX / 0 / 1 with degrees {1, 3, 5, BITS-1, BITS+1, u32::MAX}, structured patterns} below and above 2^128 with degrees {1, 2, 3, 4, 5, 7, 8, 16, 40, 63, 64, 65, uniform < 80, uniform <= BITS + 2, BITS-1, BITS, BITS+1, 2^31, u32::MAX}, negative x with odd degrees. Oracle: reference integer (floor division with the remainder taking the divisor's sign, truncating div_rem, Euclid, gcd >= 0, lcm = |a*b|/gcd when representable); roots are VERIFIED on the returned value (r^n <= |x| < (r+1)^n, sign preserved), which is a complete oracle by uniqueness; signed_/unsigned_ shifts against arithmetic / logical shifts of the pattern; MulAdd when representable; Bounded/Zero/One/Num/Pow and the Checked*/Wrapping*/Saturating*/Overflowing* forwarders against the inherent methods; a panic is a violation whenever the result is representable. At 8/32/64/128 bits num-integer's own impls for the primitive of equal width are a second oracle. NON-TRIVIAL: div_floor/mod_floor with operands of opposite sign and non-zero remainder; roots with x >= 2^128 or degree >= 4; gcd with both operands >= 2 digits; every forwarder case. distinct = distinct (profile, job, inputs) by 64-bit hash.",
+            rule: "All methods are called through the traits (UFCS). Division pairs: structured patterns, small divisors of both signs, divisors of reduced magnitude; gcd/lcm: (g*x, g*y) with small cofactors and shared powers of two, equal operands, zero, powers of two, the extreme values MIN / MIN+1 / MAX / -1 / 2^(W-2) against +-1, +-2, 3, 0 and MAX; roots: x in {r^n, r^n +- 1, r^n + delta strictly between consecutive powers (r = 2^k, 2^k * small or a structured pattern of any size; delta = gap-1, gap/2, uniform, small), top of the range, MIN / MIN+1 / -1 / MAX / 0 / 1 with degrees {1, 3, 5, BITS-1, BITS+1, u32::MAX}, structured patterns} below and above 2^128 with degrees {1, 2, 3, 4, 5, 7, 8, 16, 40, 63, 64, 65, uniform < 80, uniform <= BITS + 2, BITS-1, BITS, BITS+1, 2^31, u32::MAX}, negative x with odd degrees. Oracle: reference integer (floor division with the remainder taking the divisor's sign, truncating div_rem, Euclid, gcd >= 0, lcm = |a*b|/gcd when representable); roots are VERIFIED on the returned value (r^n <= |x| < (r+1)^n, sign preserved), which is a complete oracle by uniqueness; signed_/unsigned_ shifts against arithmetic / logical shifts of the pattern; MulAdd when representable; Bounded/Zero/One/Num/Pow and the Checked*/Wrapping*/Saturating*/Overflowing* forwarders against the inherent methods; a panic is a violation whenever the result is representable. At 8/32/64/128 bits num-integer's own impls for the primitive of equal width are a second oracle. NON-TRIVIAL: div_floor/mod_floor with operands of opposite sign and non-zero remainder; roots with x >= 2^128 or degree >= 4; gcd with both operands >= 2 digits; every forwarder case. distinct = distinct (profile, job, inputs) by 64-bit hash.",
             assumptions: &[
                 "gcd/lcm whose value is unrepresentable, even roots of negative numbers, degree 0, is_multiple_of(0), NumCast::from and (MIN, -1) are outside the property",
                 "the arithmetic forwarders are compared with the inherent methods, whose own correctness is C01-C08",
